@@ -13,7 +13,11 @@ from vmon import env
 
 
 def load_check(prop):
-    return importlib.import_module(f"vmon.checks.{prop.lower()}")
+    mod = importlib.import_module(f"vmon.checks.{prop.lower()}")
+    if getattr(mod, "CANONICAL_ABS", False):
+        from vmon import oracle
+        oracle.CANONICAL_ABS = True     # this check's functions sort canonically before they look at an absolute list
+    return mod
 
 
 class Ctx:
@@ -122,6 +126,33 @@ def main(argv):
             specs = case[ex] if isinstance(case[ex], list) else [case[ex]]
             case["extremes"] = gen.extremify(specs, i)
             LOG.n("extreme_value_cases")
+        sf = getattr(mod, "SHUFFLE", None)
+        tgt = case if isinstance(case, dict) else None
+        for part in (sf.split(".") if sf else []):
+            tgt = tgt.get(part) if isinstance(tgt, dict) else None
+        if sf and i % 7 == 3 and tgt is not None:
+            # every seventh case hands its events to add_absolute_message in a shuffled order (same piece, other insertion order)
+            for sp in (tgt if isinstance(tgt, list) else [tgt]):
+                if isinstance(sp, dict) and "notes" in sp and not sp.get("hanging"):
+                    sp["start"] = "abs_shuffled"
+                    sp["shuffle_seed"] = i
+            LOG.n("shuffled_insertion_cases")
+        tc_ = getattr(mod, "TRACK_CHANNELS", None)
+        if tc_ and i % 4 == 1 and isinstance(case, dict):
+            # tokeniser inputs: "one single-channel sequence per track" leaves the channel number free (the tokeniser relabels
+            # track k to channel k itself); every fourth case moves each track's notes to some other channel, while the
+            # signature messages keep the default channel as they do in bars built by the library
+            import random
+            r3 = random.Random(f"track-channels:{i}")
+            tgt = case.get(tc_)
+            pieces = [tgt] if isinstance(tgt, dict) else [x for x in (tgt or []) if isinstance(x, dict)]
+            for pc in pieces:
+                for k, t in enumerate(pc.get("tracks", [])):
+                    ch = r3.choice([5, 9, 15, 1, k, (k + 1) % 16, 0])
+                    for n in t.get("notes", []):
+                        n[0] = ch
+            if pieces:
+                LOG.n("track_channel_cases")
         rs = getattr(mod, "RESTATE", None)
         if rs and i % 5 == 2 and isinstance(case, dict) and isinstance(case.get(rs), dict):
             done = gen.restate_signatures(case[rs], i)
